@@ -81,6 +81,20 @@ def parse_races(text):
     return list(out.values())
 
 
+def load_known(pid):
+    """known findings of this property: the merged known_findings.json (written by
+    lib/mkmanifest.py) and, in case it has not been regenerated yet, the fragment itself"""
+    out = vf.load_known(pid)
+    try:
+        frag = json.load(open(os.path.join(vf.ROOT, "known_findings.d", pid + ".json")))
+        for f in frag.get("findings", []):
+            if f.get("property") == pid and f.get("status") == "known" and f not in out:
+                out.append(f)
+    except Exception:
+        pass
+    return out
+
+
 def build(ctx):
     """go build (-race if the race runtime is usable offline). Returns (ok, race_enabled, log)."""
     hd = os.path.join(vf.ROOT, "harness")
@@ -113,8 +127,26 @@ def one_round(ctx, seed, tier, n, tag, known, race_enabled):
             race_text += open(os.path.join(vf.BUILD, f), errors="replace").read()
             os.remove(os.path.join(vf.BUILD, f))
     if rc not in (0, 66) or not os.path.exists(side):
-        vf.violation(ctx, {"broken": "harness run failed", "log": hout[-3000:], "race_log": race_text[-3000:]}, False,
-                     "harness run failed (rc=%d)" % rc, tag)
+        # the process died: a panic in one of the pool's own goroutines cannot be
+        # recovered by the harness. The panic and the race reports written before
+        # it are the concrete evidence.
+        m = re.search(r"^(panic: .*|fatal error: .*)$", hout, re.M)
+        n_unknown = 0
+        for rc_ in parse_races(race_text):
+            if vf.match_known(known, dict({k: v for k, v in rc_.items() if k != "report"}, group="race")):
+                continue
+            n_unknown += 1
+            vf.violation(ctx, {"group": "race", "case": rc_, "seed": seed, "tier": tier}, True,
+                         "data race in the pool reported by the Go race detector: %s <-> %s" % (rc_["a"], rc_["b"]),
+                         tag + "-race%d" % n_unknown)
+        if m:
+            i = hout.find(m.group(1))
+            vf.violation(ctx, {"group": "crash", "case": {"panic": m.group(1), "stack": hout[i:i + 3000]}, "seed": seed, "tier": tier,
+                               "note": "a goroutine of the pool panicked and killed the process while the harness ran concurrent pool calls and Shutdown"},
+                         True, "the pool crashed the process: " + m.group(1), tag + "-crash")
+        else:
+            vf.violation(ctx, {"broken": "harness run failed", "log": hout[-3000:], "race_log": race_text[-3000:]}, n_unknown > 0,
+                         "harness run failed (rc=%d)" % rc, tag)
         return None
     sj = json.load(open(side))
     cases = sj.get("cases", {})
@@ -188,7 +220,7 @@ def run(ctx):
         "NOT available offline - scheduling noise and GOMAXPROCS variation only: " + blog[-300:]
     if not race_enabled:
         ctx.notes.append("go build -race failed; memory-model races are not sampled in this run")
-    known = vf.load_known(ctx.pid)
+    known = load_known(ctx.pid)
     n = BUDGET[1] if ctx.thorough() else BUDGET[0]
     r = one_round(ctx, ctx.seed, ctx.tier, n, "", known, race_enabled)
     if r is None:
